@@ -107,6 +107,8 @@ func (c20) build(src *gen.Source) *Case {
 		for i := 0; i < k; i++ {
 			c.Vars = append(c.Vars, c20Environ[src.Intn(len(c20Environ))])
 		}
+	} else if src.Chance(1, 8) {
+		c.Inherit = true
 	}
 	n := 1 + src.Intn(12)
 	anyName := func() string {
@@ -447,8 +449,28 @@ func (p c20) Run(t *testing.T, c *Case, s Sched, keepLog bool) *Obs {
 	body := func() {
 		cc := *c
 		cc.Vars = nil
-		var env *interp.ExecEnv
-		if len(c.Vars) == 0 {
+		var env, sibling *interp.ExecEnv
+		inherited := map[string]string{}
+		siblingSnap := ""
+		if c.Inherit {
+			// the environment keeps what it inherited from the process under the names HOME, PATH and IFS (everything
+			// else is removed, so that the case does not depend on the worker's other variables); a sibling created
+			// from the same process environment must never notice what is done to this one
+			mk := func() *interp.ExecEnv {
+				e := interp.NewExecEnv(c.Args[0], c.Args[1:]...)
+				var names []string
+				e.Walk(func(v interp.Var) { names = append(names, v.Name) })
+				for _, n := range names {
+					if n != "HOME" && n != "PATH" && n != "IFS" {
+						e.Unset(n)
+					}
+				}
+				return e
+			}
+			env, sibling = mk(), mk()
+			env.Walk(func(v interp.Var) { inherited[v.Name] = v.Value })
+			siblingSnap = dumpEnv(sibling)
+		} else if len(c.Vars) == 0 {
 			env = newEnv(&cc)
 		} else {
 			// the process environment holds entries named like positional/special parameters while the
@@ -470,7 +492,7 @@ func (p c20) Run(t *testing.T, c *Case, s Sched, keepLog bool) *Obs {
 		}
 		aliases := map[string]string{"ll": "ls -l"}
 		env.Aliases = map[string]string{"ll": "ls -l"}
-		m := &c20Model{vars: map[string]string{}, args: append([]string{}, env.Args...)}
+		m := &c20Model{vars: inherited, args: append([]string{}, env.Args...)}
 		for si, op := range c.History {
 			desc := fmt.Sprintf("step %d %s %s %q", si, op.Op, op.Name, op.Value)
 			switch op.Op {
@@ -803,6 +825,11 @@ func (p c20) Run(t *testing.T, c *Case, s Sched, keepLog bool) *Obs {
 				// compared as sorted LISTS: an entry enumerated twice is a difference
 				if strings.Join(walked, "\x00") != strings.Join(want, "\x00") {
 					add("walk-differs-from-model", fmt.Sprintf("after %s: Walk gives %q, model has %q", desc, walked, want))
+				}
+			}
+			if sibling != nil && observe == 2 {
+				if now := dumpEnv(sibling); now != siblingSnap {
+					add("sibling-environment-changed", fmt.Sprintf("after %s: another ExecEnv created from the same process environment changed: %s", desc, firstDiff(siblingSnap, now)))
 				}
 			}
 			if fmt.Sprintf("%q", env.Args) != fmt.Sprintf("%q", m.args) {
